@@ -282,6 +282,13 @@ class Geometry(DaeObject):
         self.xmlnode.set('id', self.id)
         self.xmlnode.set('name', self.name)
 
+        double_sided_node = self.xmlnode.find('.//%s//%s' % (tag('extra'), tag('double_sided')))
+        if double_sided_node is None and self.double_sided:
+            double_sided_node = E.double_sided()
+            self.xmlnode.append(E.extra(E.technique(double_sided_node, profile='GOOGLEEARTH')))
+        if double_sided_node is not None:
+            double_sided_node.text = "1" if self.double_sided else "0"
+
         _syncChildren(meshnode, [prim.xmlnode for prim in self.primitives],
                       lambda child: child.tag not in (tag('source'), tag('vertices'), tag('extra')),
                       before=meshnode.find(tag('extra')))
